@@ -7,6 +7,7 @@
 //	parse <hex of string>       StringToFixed64 on an arbitrary ASCII string  → ok <v> | err
 //	addr <hex21> <chk4>         Uint168.ToAddress then Uint168FromAddress     → <address> ok <hex21> | <address> err <class>
 //	fromaddr <hex of string> <chk4|->   Uint168FromAddress                    → ok <hex21> | err len|char|verify | panic
+//	wks <priv> <seed>           keystore round trip: CreateFromAccount → Open → Client.Sign → RunPrograms (see execWks)
 //	wrun … / wtamper …          `run` format (run.go): a transaction signed by the wallet code
 //	                            (account.SignStandardTransaction / SignMultiSignTransaction /
 //	                            crypto.AggregateSignatures on a Schnorr aggregate account) checked by
@@ -19,12 +20,15 @@ import (
 	"math"
 	"math/big"
 	mrand "math/rand"
+	"os"
+	"path/filepath"
 	"strconv"
 	"strings"
 
 	"elaverif/harness/hx"
 
 	"github.com/elastos/Elastos.ELA/account"
+	"github.com/elastos/Elastos.ELA/blockchain"
 	"github.com/elastos/Elastos.ELA/common"
 	"github.com/elastos/Elastos.ELA/core/contract"
 	"github.com/elastos/Elastos.ELA/core/contract/program"
@@ -105,6 +109,8 @@ func exec(t []string) string {
 		return "ok " + hx.Hex(back.Bytes())
 	case "wrun", "wtamper":
 		return execRun(t)
+	case "wks":
+		return execWks(t)
 	case "wcan": // wcan <m> <n>: can the wallet's own code sign for the m-of-n account it creates?
 		m, n := atoi(t[1]), atoi(t[2])
 		var pubs []*crypto.PublicKey
@@ -173,6 +179,11 @@ func oracle(t []string, out string) *hx.Violation {
 			return &hx.Violation{Kind: "wallet-account-unsignable",
 				Detail: "the wallet creates an m-of-n account (address) whose script its own signing code and the node's verifier reject: " + out}
 		}
+	case "wks":
+		if !strings.HasSuffix(out, " ok") {
+			return &hx.Violation{Kind: "wallet-rejected-after-keystore",
+				Detail: "an account saved to the keystore and re-opened does not produce a signature the node accepts: " + out}
+		}
 	case "wtamper":
 		if out == "ok" {
 			return &hx.Violation{Kind: "accept-tampered", Detail: "wallet signatures were accepted for a changed transaction"}
@@ -182,6 +193,72 @@ func oracle(t []string, out string) *hx.Violation {
 }
 
 func nontrivial(t []string, out string) bool { return out != "oracle-mismatch" }
+
+// ---------------------------------------------------------------- keystore round trip
+//
+//	wks <private key bytes, hex, 1..32 bytes> <seed>
+//
+// The real wallet path: account.NewAccountWithPrivateKey → account.CreateFromAccount (keystore file
+// written by Client.SaveAccount, a second generated account added) → account.Open (LoadAccounts) →
+// Client.Sign on a transaction spending the account's address → blockchain.RunPrograms.
+// Answer: <the 32-byte private-key slot found in the keystore, decrypted> <ok | err class>.
+
+var wksCounter int
+
+func execWks(t []string) string {
+	priv := hx.UnHex(t[1])
+	seed, err := strconv.ParseUint(t[2], 10, 64)
+	if err != nil {
+		panic("harness: bad seed")
+	}
+	acct, err := account.NewAccountWithPrivateKey(exact(priv))
+	if err != nil {
+		return "no-account"
+	}
+	dir, err := os.MkdirTemp("", "c37-keystore")
+	if err != nil {
+		panic("harness: tempdir")
+	}
+	defer os.RemoveAll(dir)
+	wksCounter++
+	path := filepath.Join(dir, fmt.Sprintf("keystore-%d.dat", wksCounter))
+	pwd := []byte("c37-password")
+	cl, err := account.CreateFromAccount(path, append([]byte{}, pwd...), acct)
+	if err != nil {
+		return "create-error"
+	}
+	if _, err := cl.CreateAccount(); err != nil { // a second, generated account in the same keystore
+		return "add-error"
+	}
+	cl2, err := account.Open(path, append([]byte{}, pwd...))
+	if err != nil {
+		return "open-error"
+	}
+	// what is in the private-key slot of the stored main account
+	slot := "-"
+	stored, err := cl2.LoadAccountData()
+	if err != nil {
+		return "load-error"
+	}
+	for _, a := range stored {
+		if a.ProgramHash == common.BytesToHexString(acct.ProgramHash.Bytes()) && a.PrivateKeyEncrypted != "" {
+			enc, _ := common.HexStringToBytes(a.PrivateKeyEncrypted)
+			kp, err := cl2.DecryptPrivateKey(enc)
+			if err != nil || len(kp) != 96 {
+				return "decrypt-error"
+			}
+			slot = hx.Hex(kp[64:96])
+		}
+	}
+	tx := randomTx(hx.NewRand(seed))
+	tx.SetPrograms([]*program.Program{{Code: acct.RedeemScript, Parameter: nil}})
+	signed, err := cl2.Sign(tx)
+	if err != nil {
+		return slot + " sign-error"
+	}
+	res := blockchain.RunPrograms(unsignedBytes(signed), []common.Uint168{acct.ProgramHash}, signed.Programs())
+	return slot + " " + errClass(res)
+}
 
 // ---------------------------------------------------------------- generators
 
@@ -499,8 +576,45 @@ func genCan(g *hx.Gen) {
 	}
 }
 
+// private keys of every byte length 1..32 (D.Bytes() of scalars below 2^8 … 2^256), i.e. with 0..31
+// leading zero bytes once they sit in the 32-byte keystore slot
+func genKeystore(g *hx.Gen) {
+	r := g.R
+	n := new(big.Int).Set(crypto.DefaultParams.N)
+	emit := func(d *big.Int) {
+		if d.Sign() <= 0 || d.Cmp(n) >= 0 {
+			return
+		}
+		g.Emit("wks %s %d", hx.Hex(d.Bytes()), r.U64()%1000000)
+	}
+	for l := 1; l <= 32; l++ {
+		for rep := 0; rep < g.N(2, 8); rep++ {
+			b := r.Bytes(l)
+			b[0] |= 1 // first byte non-zero: exactly l bytes
+			emit(new(big.Int).SetBytes(b))
+		}
+	}
+	emit(big.NewInt(1))
+	emit(new(big.Int).Lsh(big.NewInt(1), 247))
+	emit(new(big.Int).Sub(new(big.Int).Lsh(big.NewInt(1), 248), big.NewInt(1))) // largest 31-byte scalar
+	emit(new(big.Int).Lsh(big.NewInt(1), 248))                                  // smallest 32-byte scalar
+	emit(new(big.Int).Sub(n, big.NewInt(1)))
+	// 32-byte encodings with explicit leading zeros (NewAccountWithPrivateKey is given padded bytes)
+	for _, z := range []int{1, 2, 8, 31} {
+		b := r.Bytes(32)
+		for i := 0; i < z; i++ {
+			b[i] = 0
+		}
+		b[z] |= 1
+		if new(big.Int).SetBytes(b).Cmp(n) < 0 {
+			g.Emit("wks %s %d", hx.Hex(b), r.U64()%1000000)
+		}
+	}
+}
+
 func gen(g *hx.Gen) {
 	mrand.Seed(int64(g.Seed))
+	genKeystore(g)
 	genCan(g)
 	genAmounts(g)
 	genAddresses(g)
